@@ -22,6 +22,7 @@ opaque!(BusListener);
 //@item core/src/message/subscribe_event_reply.rs enum SubscribeEventResult
 //@item core/src/message/subscribe_event_reply.rs struct SubscribeEventReply
 //@item core/src/message/unsubscribe_event.rs struct UnsubscribeEvent attr=derive(Clone,Copy)
+//@item core/src/message/emit_event.rs struct EmitEvent
 //@item core/src/message/subscribe_service.rs struct SubscribeService
 //@item core/src/message/subscribe_service_reply.rs enum SubscribeServiceResult
 //@item core/src/message/subscribe_service_reply.rs struct SubscribeServiceReply
@@ -34,14 +35,31 @@ opaque!(BusListener);
 //@item core/src/message/unsubscribe_all_events_reply.rs struct UnsubscribeAllEventsReply
 
 // protocol minor version that introduced each message kind sent by these handlers (0 = base protocol 1.14)
-impl IntoMessage for SubscribeEvent { open spec fn min_minor() -> u32 { 0 } }
-impl IntoMessage for SubscribeEventReply { open spec fn min_minor() -> u32 { 0 } }
-impl IntoMessage for UnsubscribeEvent { open spec fn min_minor() -> u32 { 0 } }
-impl IntoMessage for SubscribeServiceReply { open spec fn min_minor() -> u32 { 18 } }
-impl IntoMessage for SubscribeAllEvents { open spec fn min_minor() -> u32 { 18 } }
-impl IntoMessage for SubscribeAllEventsReply { open spec fn min_minor() -> u32 { 18 } }
-impl IntoMessage for UnsubscribeAllEvents { open spec fn min_minor() -> u32 { 18 } }
-impl IntoMessage for UnsubscribeAllEventsReply { open spec fn min_minor() -> u32 { 18 } }
+impl IntoMessage for SubscribeEvent { open spec fn min_minor() -> u32 { 0 } open spec fn allowed_for(&self, receiver: &ConnectionState) -> bool { true } }
+impl IntoMessage for SubscribeEventReply { open spec fn min_minor() -> u32 { 0 } open spec fn allowed_for(&self, receiver: &ConnectionState) -> bool { true } }
+impl IntoMessage for UnsubscribeEvent { open spec fn min_minor() -> u32 { 0 } open spec fn allowed_for(&self, receiver: &ConnectionState) -> bool { true } }
+impl IntoMessage for SubscribeServiceReply { open spec fn min_minor() -> u32 { 18 } open spec fn allowed_for(&self, receiver: &ConnectionState) -> bool { true } }
+impl IntoMessage for SubscribeAllEvents { open spec fn min_minor() -> u32 { 18 } open spec fn allowed_for(&self, receiver: &ConnectionState) -> bool { true } }
+impl IntoMessage for SubscribeAllEventsReply { open spec fn min_minor() -> u32 { 18 } open spec fn allowed_for(&self, receiver: &ConnectionState) -> bool { true } }
+impl IntoMessage for UnsubscribeAllEvents { open spec fn min_minor() -> u32 { 18 } open spec fn allowed_for(&self, receiver: &ConnectionState) -> bool { true } }
+impl IntoMessage for UnsubscribeAllEventsReply { open spec fn min_minor() -> u32 { 18 } open spec fn allowed_for(&self, receiver: &ConnectionState) -> bool { true } }
+
+// #[derive(Clone)] of EmitEvent clones field by field. ASSUMED (the payload is opaque here).
+impl Clone for EmitEvent {
+    #[verifier::external_body]
+    fn clone(&self) -> (r: Self)
+        ensures r.service_cookie == self.service_cookie, r.event == self.event
+    { unimplemented!() }
+}
+
+// ROUTING (C04): an event is delivered only to a connection that is subscribed to that event id of that service or to all
+// events of the service ("... and to no other connection")
+impl IntoMessage for EmitEvent {
+    open spec fn min_minor() -> u32 { 0 }
+    closed spec fn allowed_for(&self, receiver: &ConnectionState) -> bool {
+        receiver.all_events@.contains(self.service_cookie) || receiver.ev(self.service_cookie).contains(self.event)
+    }
+}
 
 impl ServiceInfo {
     #[verifier::external_body]
@@ -303,6 +321,28 @@ impl Broker {
             final(self).inv_objects(), final(self).inv_services(), final(self).inv_object_services(), final(self).inv_ownership(),
             final(self).inv_calls(), final(self).inv_callers(), final(self).inv_conns(), final(self).inv_subs(),
             final(self).reg_winv(), final(self).reg_inv(),
+    //@end
+
+    // ---- event delivery ---------------------------------------------------------------------------------------------------
+    // No table changes; every EmitEvent that is sent goes to a subscribed connection (precondition of `send`, see
+    // IntoMessage for EmitEvent above); an event from a connection that does not own the service's object is dropped before the
+    // fan-out loop is reached.
+    //@fn broker/src/broker.rs Broker::emit_event option-map
+        requires
+            old(self).reg_inv(),
+        ensures
+            final(self).unchanged(old(self)), final(self).stat_same(old(self)),
+            // events emitted by anybody but the owner of the service's object (or for a stale service cookie) are dropped: not even
+            // the deferred-work queue is touched
+            !(old(self).conns@.contains_key(*id) && old(self).svc_uuids@.contains_key(req.service_cookie)
+                && old(self).objs@[old(self).svc_uuids@[req.service_cookie].0.uuid].conn_id == *id) ==> *final(state) == *old(state),
+            final(state).rest_eq(old(state), 2),
+    //@ghost before `for (conn_id, conn) in self.conns.iter()`
+        let ghost pre = *self;
+    //@loop 0 it
+        invariant
+            self.unchanged(&pre), self.stat_same(&pre), pre.unchanged(old(self)), pre.stat_same(old(self)),
+            state.rest_eq(old(state), 2),
     //@end
 }
 
